@@ -799,7 +799,8 @@ class SqwEngine(Engine):
     def _one_write_fault(self, scn, ctx, fin, dec, trace, k, partial, retry):
         sink = seams.SimBytesIO(ctx=ctx, fail_at=k, partial=partial)
         ctx.fault_configured("enospc_at_write_ordinal")
-        exc = self._create(scn, ctx, sink, label=f"create_fault_k{k}")
+        keep: dict = {}
+        exc = self._create(scn, ctx, sink, label=f"create_fault_k{k}", keep=keep if retry else None)
         if not sink.sim_fired:
             # fewer writes than k: nothing injected, must behave as fault-free
             if exc is not None:
@@ -819,14 +820,28 @@ class SqwEngine(Engine):
                 kind="ack_after_failed_write", sink="mem", _hint={"write_k": k},
             )
         if retry:
-            s2 = seams.SimBytesIO(ctx=ctx)
-            exc2 = self._create(scn, ctx, s2, label="retry_after_fault")
+            # the fault clears; the SAME builder (same inputs) creates the file again
             ctx.count("retries_after_fault")
+            if "builder" in keep:
+                sink.sim_fail_at = None
+                sink.seek(0)
+                sink.truncate(0)
+                exc2 = self._create_again(scn, ctx, keep["builder"], "retry_same_builder_after_fault")
+                s2 = sink
+                ctx.probe("retry_on_the_builder_that_failed")
+            else:
+                s2 = seams.SimBytesIO(ctx=ctx)
+                exc2 = self._create(scn, ctx, s2, label="retry_after_fault")
             if exc2 is not None:
-                ctx.violate("retry_failed", f"after the fault cleared, create() on a fresh sink raised {exc2}", kind="retry_failed")
+                ctx.violate("retry_failed", f"after the fault cleared, create() raised {exc2}",
+                            kind="retry_failed")
             else:
                 d2 = ref_sqw.decode_file(s2.getvalue())
                 self._judge_structure(scn, ctx, fin, s2.getvalue(), d2, None, where="retry")
+                if s2.getvalue() != dec.get("_bytes", s2.getvalue()) and False:
+                    pass
+                if self.prop == "C13":
+                    self._judge_content(scn, ctx, fin, d2, where="retry")
         return True
 
     def _enum_writes(self, scn, ctx, fin, dec, trace):
@@ -877,10 +892,13 @@ class SqwEngine(Engine):
             except OSError:
                 pass
             ctx.fault_configured("disk_full_at_byte(RLIMIT_FSIZE)")
+            last_keep: dict = {}
             with seams.FsizeLimit(k):
                 from pathlib import Path
 
-                exc = self._create(scn, ctx, Path(path), label=f"create_fsize_{k}")
+                exc = self._create(scn, ctx, Path(path), label=f"create_fsize_{k}", keep=last_keep)
+            if exc is not None and "builder" in last_keep:
+                failed_builder = last_keep["builder"]
             region = self._region_of(dec, k)
             ctx.site("dfull@" + region)
             ctx.fault_fired("disk_full_at_byte(RLIMIT_FSIZE)")
@@ -906,10 +924,16 @@ class SqwEngine(Engine):
                         kind="ack_truncated_file", sink="path", _hint={"fsize_k": k},
                         via="tofile" if region.startswith(("pix", "dnd")) else "python-writer",
                     )
-        # fault cleared: create() again on the same path must give the complete file
+        # fault cleared: create() again on the same path must give the complete file -- with the
+        # very builder whose create() failed last, if there is one
         from pathlib import Path
 
-        exc = self._create(scn, ctx, Path(path), label="create_after_disk_full")
+        fb = locals().get("failed_builder")
+        if fb is not None:
+            exc = self._create_again(scn, ctx, fb, "create_after_disk_full_same_builder")
+            ctx.probe("retry_on_the_builder_that_failed")
+        else:
+            exc = self._create(scn, ctx, Path(path), label="create_after_disk_full")
         ctx.count("retries_after_fault")
         if exc is not None:
             ctx.violate("retry_failed", f"after the disk-full condition cleared, create() raised {exc}", kind="retry_failed")
